@@ -111,7 +111,17 @@ def h15c(c, n=2):
 
 
 OUT = ["more than 3 (thorough 4) steps / 2 orders per request", "Betdaq polling"]
+def h15d(c, K=3):
+    """live mode (C11 world: requests, late responses, exchange-side fills, current / stale snapshots, replaced bets whose stream update
+    may arrive before the replace response): at quiescence every bet has exactly one local order and every view lists each order once"""
+    from .c11 import h11a
+    from .c06 import _Only
+    h11a(_Only(c, ("exactly-one-local-order", "orders-once", "lookup-identity", "view-once", "live-list", "bet-id-lookup", "view-entry", "live-list-entry", "no-exception")), K=K)
+
+
 HARNESSES = [
+    Harness("H15d", h15d, quick=dict(K=3), thorough=dict(K=4), pattern="P3/P5 schedule as a variable", requires=["run", "snapshot", "replaced-bet"], outside=OUT,
+            max_paths=(400000, 5000000), wall_s=(300, 3000), selfcheck=False),
     Harness("H15a", h15a, quick=dict(K=3), thorough=dict(K=4), pattern="P3 bounded history", requires=["history", "several-orders"], outside=OUT,
             max_paths=(300000, 3000000), wall_s=(300, 3000)),
     Harness("H15b", h15b, quick=dict(n=2), pattern="P3/P5", requires=["adopted", "adopted-into-closed-market", "bet-id-view"], outside=OUT, max_paths=(300000, 3000000)),
